@@ -237,7 +237,9 @@ type recorder struct {
 func newRecorder(failAt int) *recorder { return &recorder{failAt: failAt} }
 
 func (r *recorder) add(e event) error {
-	r.evs = append(r.evs, e)
+	if len(r.evs) < 5000 {
+		r.evs = append(r.evs, e)
+	}
 	r.calls++
 	if r.onCall != nil {
 		r.onCall()
